@@ -1,42 +1,116 @@
 package main
 
 import (
+	"bufio"
 	"encoding/json"
 	"flag"
 	"fmt"
 	"os"
 	"path/filepath"
+	"regexp"
 	"sort"
 	"strconv"
 	"strings"
 	"time"
 )
 
+type kfEntry struct {
+	Fixed      bool
+	Property   string
+	ID         string
+	Obligation string // exact name or prefix ending in *
+	Text       string
+	Line       string
+}
+
+var kfRe = regexp.MustCompile(`^KNOWN-FINDING:\s+property=(\S+)\s+id=(\S+)\s+obligation=(\S+)\s+(.*)$`)
+var fixedRe = regexp.MustCompile(`^fixed:\s+property=(\S+)\s+(\S+)\s+(.*)$`)
+
+func loadKnownFindings(path string) []*kfEntry {
+	f, err := os.Open(path)
+	if err != nil {
+		return nil
+	}
+	defer f.Close()
+	var out []*kfEntry
+	sc := bufio.NewScanner(f)
+	for sc.Scan() {
+		l := strings.TrimSpace(sc.Text())
+		if m := kfRe.FindStringSubmatch(l); m != nil {
+			out = append(out, &kfEntry{Property: m[1], ID: m[2], Obligation: m[3], Text: m[4], Line: l})
+		} else if m := fixedRe.FindStringSubmatch(l); m != nil {
+			out = append(out, &kfEntry{Fixed: true, Property: m[1], ID: m[2], Text: m[3], Line: l})
+		}
+	}
+	return out
+}
+
+func (k *kfEntry) matches(prop, obl string) bool {
+	if k.Fixed || k.Property != prop {
+		return false
+	}
+	if strings.HasSuffix(k.Obligation, "*") {
+		return strings.HasPrefix(obl, strings.TrimSuffix(k.Obligation, "*"))
+	}
+	return k.Obligation == obl
+}
+
+type checkOpts struct {
+	repo, prop, tier, only, keep, evdir, root string
+	verbose                                  bool
+	seed                                     int
+	overlay                                  map[string][]byte
+	quiet                                    bool
+	noEvidence                               bool
+}
+
+type checkResult struct {
+	obls       []*Obligation
+	vcs        []*VC
+	failed     []*Obligation
+	known      []*Obligation
+	parseErrs  []string
+	loadErr    error
+	wall       float64
+	solverTime float64
+}
+
 func cmdCheck(args []string) int {
 	fs := flag.NewFlagSet("check", flag.ExitOnError)
-	repo := fs.String("repo", "/repo", "repository to verify")
-	prop := fs.String("p", "", "property id")
-	tier := fs.String("tier", envOr("VERIF_TIER", "quick"), "quick|thorough")
-	only := fs.String("f", "", "only this function (debug)")
-	verbose := fs.Bool("v", false, "list every obligation")
-	keep := fs.String("keep", "", "keep queries in this directory")
-	evdir := fs.String("evidence", "/verif/evidence", "")
+	var o checkOpts
+	fs.StringVar(&o.repo, "repo", "/repo", "repository to verify")
+	fs.StringVar(&o.prop, "p", "", "property id")
+	fs.StringVar(&o.tier, "tier", envOr("VERIF_TIER", "quick"), "quick|thorough")
+	fs.StringVar(&o.only, "f", "", "only this function (debug)")
+	fs.BoolVar(&o.verbose, "v", false, "list every obligation")
+	fs.StringVar(&o.keep, "keep", "", "keep queries in this directory")
+	fs.StringVar(&o.root, "root", "/verif", "verification root (evidence, replays, known findings)")
+	fs.BoolVar(&o.noEvidence, "no-evidence", false, "")
 	fs.Parse(args)
-	seed, _ := strconv.Atoi(envOr("VERIF_SEED", "0"))
-	t0 := time.Now()
-	e, err := loadEngine(*repo, nil)
-	if err != nil {
-		fmt.Fprintln(os.Stderr, "load:", err)
+	o.seed, _ = strconv.Atoi(envOr("VERIF_SEED", "0"))
+	o.evdir = filepath.Join(o.root, "evidence")
+	if o.prop == "" && o.only == "" {
+		fmt.Fprintln(os.Stderr, "check: -p <property> required")
 		return 2
 	}
-	for _, pe := range e.parseErrs {
-		fmt.Println("contract error:", pe)
+	res := runCheck(&o)
+	return report(&o, res)
+}
+
+func runCheck(o *checkOpts) *checkResult {
+	t0 := time.Now()
+	res := &checkResult{}
+	e, err := loadEngine(o.repo, o.overlay)
+	if err != nil {
+		res.loadErr = err
+		return res
 	}
+	res.parseErrs = e.parseErrs
 	var names []string
 	for _, n := range sortedKeys(e.contracts) {
 		c := e.contracts[n]
-		if *only != "" {
-			if n == *only {
+		if o.only != "" {
+			if n == o.only {
 				names = append(names, n)
 			}
 			continue
@@ -45,71 +119,253 @@ func cmdCheck(args []string) int {
 			continue
 		}
 		for _, p := range c.Props {
-			if p == *prop || *prop == "all" {
+			if p == o.prop || o.prop == "all" {
 				names = append(names, n)
 				break
 			}
 		}
 	}
-	var all []*Obligation
-	var vcs []*VC
 	for _, n := range names {
 		vc, err := e.verifyFunc(n)
 		if err != nil {
-			fmt.Println("error:", n, err)
+			res.parseErrs = append(res.parseErrs, fmt.Sprintf("%s: %v", n, err))
 			continue
 		}
-		vcs = append(vcs, vc)
-		all = append(all, vc.obls...)
+		res.vcs = append(res.vcs, vc)
+		res.obls = append(res.obls, vc.obls...)
 	}
 	tmp, _ := os.MkdirTemp("", "govc")
-	if *keep != "" {
-		tmp = *keep
+	if o.keep != "" {
+		tmp = o.keep
 		os.MkdirAll(tmp, 0o755)
 	} else {
 		defer os.RemoveAll(tmp)
 	}
-	opt := solveOpts{timeoutS: 8, seed: seed, tmp: tmp, keep: *keep != ""}
-	if *tier == "thorough" {
+	opt := solveOpts{timeoutS: 8, seed: o.seed, tmp: tmp, keep: o.keep != ""}
+	if o.tier == "thorough" {
 		opt.timeoutS = 60
 		opt.confirm = true
 	}
-	dischargeAll(all, opt, 16)
-	bad := 0
-	proved := 0
-	for _, o := range all {
-		ok := o.Status == "proved"
-		if o.ExpectSat {
-			ok = o.Status != "proved" // unsat would mean vacuous
+	dischargeAll(res.obls, opt, 16)
+	for _, ob := range res.obls {
+		res.solverTime += ob.Time
+		ok := ob.Status == "proved"
+		if ob.ExpectSat {
+			ok = ob.Status != "proved"
 			if ok {
-				o.Status = "covered"
+				if ob.Status == "failed" {
+					ob.Status = "covered"
+				} else {
+					ob.Status = "cover-unknown"
+				}
 			} else {
-				o.Status = "vacuous"
+				ob.Status = "vacuous"
 			}
 		}
-		if ok {
-			proved++
-		} else {
-			bad++
+		if !ok {
+			res.failed = append(res.failed, ob)
 		}
-		if *verbose || !ok {
-			fmt.Printf("%-9s %-70s %6.2fs %s %s\n", o.Status, o.Name, o.Time, o.Solver, oneLine(o.Output))
-			if !ok {
-				fmt.Printf("          at %s:%d  %s\n", filepath.Base(o.Pos.Filename), o.Pos.Line, o.Src)
+	}
+	res.wall = time.Since(t0).Seconds()
+	return res
+}
+
+func report(o *checkOpts, res *checkResult) int {
+	prop := o.prop
+	if prop == "" {
+		prop = "debug"
+	}
+	if res.loadErr != nil {
+		// the ghost files no longer compile against the changed repository, or the
+		// repository itself does not build: nothing can be claimed
+		fmt.Println("load error:", res.loadErr)
+		path := writeReplay(o, prop, "load", map[string]any{"obligation": "load", "error": res.loadErr.Error()})
+		fmt.Printf("VIOLATION property=%s replay=%s no-failing-input-found\n", prop, path)
+		return 1
+	}
+	kfs := loadKnownFindings(filepath.Join(o.root, "KNOWN_FINDINGS.txt"))
+	exit := 0
+	for _, pe := range res.parseErrs {
+		fmt.Println("contract error:", pe)
+		path := writeReplay(o, prop, "stale-contract", map[string]any{"obligation": "stale-contract", "error": pe})
+		fmt.Printf("VIOLATION property=%s replay=%s no-failing-input-found\n", prop, path)
+		exit = 1
+	}
+	for _, ob := range res.obls {
+		bad := false
+		for _, f := range res.failed {
+			if f == ob {
+				bad = true
+			}
+		}
+		if o.verbose || bad {
+			fmt.Printf("%-9s %-72s %6.2fs %s %s\n", ob.Status, ob.Name, ob.Time, ob.Solver, oneLine(ob.Output))
+			if bad {
+				fmt.Printf("          at %s:%d  %s\n", filepath.Base(ob.Pos.Filename), ob.Pos.Line, ob.Src)
 			}
 		}
 	}
-	fmt.Printf("functions=%d obligations=%d discharged=%d failed=%d wall=%.1fs\n", len(vcs), len(all), proved, bad, time.Since(t0).Seconds())
-	_ = evdir
-	_ = json.Marshal
-	_ = sort.Strings
-	if len(e.parseErrs) > 0 {
-		return 1
+	printedKF := map[string]bool{}
+	var violations []*Obligation
+	for _, ob := range res.failed {
+		var hit *kfEntry
+		for _, k := range kfs {
+			if k.matches(prop, ob.Name) {
+				hit = k
+			}
+		}
+		if hit != nil {
+			res.known = append(res.known, ob)
+			if !printedKF[hit.ID] {
+				printedKF[hit.ID] = true
+				fmt.Printf("KNOWN-FINDING: property=%s id=%s obligation=%s %s\n", prop, hit.ID, hit.Obligation, hit.Text)
+			}
+			continue
+		}
+		violations = append(violations, ob)
 	}
-	if bad > 0 {
-		return 1
+	for _, ob := range violations {
+		rp := replayObligation(o, ob)
+		path := writeReplay(o, prop, ob.Name, rp)
+		suffix := ""
+		if c, _ := rp["confirmed"].(bool); !c {
+			suffix = " no-failing-input-found"
+		}
+		fmt.Printf("VIOLATION property=%s replay=%s%s\n", prop, path, suffix)
+		exit = 1
 	}
-	return 0
+	if !o.noEvidence && o.prop != "" {
+		writeEvidence(o, res, kfs, len(violations))
+	}
+	fmt.Printf("property=%s tier=%s functions=%d obligations=%d discharged=%d known-findings=%d violations=%d wall=%.1fs\n",
+		prop, o.tier, len(res.vcs), len(res.obls), len(res.obls)-len(res.failed), len(res.known), len(violations), res.wall)
+	return exit
+}
+
+func writeReplay(o *checkOpts, prop, name string, content map[string]any) string {
+	dir := filepath.Join(o.root, "replays", prop)
+	os.MkdirAll(dir, 0o755)
+	path := filepath.Join(dir, mangle(name)+".json")
+	content["property"] = prop
+	b, _ := json.MarshalIndent(content, "", " ")
+	os.WriteFile(path, b, 0o644)
+	return path
+}
+
+func writeEvidence(o *checkOpts, res *checkResult, kfs []*kfEntry, violations int) {
+	os.MkdirAll(o.evdir, 0o755)
+	bySolver := map[string]int{}
+	var funcs []string
+	assumed := map[string]bool{}
+	inlined := map[string]bool{}
+	uncontr := map[string]bool{}
+	for _, vc := range res.vcs {
+		funcs = append(funcs, vc.fnName)
+		for k := range vc.assumed {
+			assumed[k] = true
+		}
+		for k := range vc.inlined {
+			inlined[k] = true
+		}
+		for k := range vc.uncontr {
+			uncontr[k] = true
+		}
+	}
+	type sample struct {
+		Obligation string  `json:"obligation"`
+		Kind       string  `json:"kind"`
+		Status     string  `json:"status"`
+		Solver     string  `json:"solver"`
+		TimeS      float64 `json:"time_s"`
+		QueryBytes int     `json:"query_bytes"`
+		Clause     string  `json:"clause"`
+	}
+	var samples []sample
+	byKind := map[string]int{}
+	covers := 0
+	proofObls, proofDone := 0, 0
+	var slowest []*Obligation
+	for _, ob := range res.obls {
+		byKind[ob.Kind]++
+		if ob.ExpectSat {
+			covers++
+			continue
+		}
+		proofObls++
+		if ob.Status == "proved" {
+			proofDone++
+			bySolver[ob.Solver]++
+		}
+		slowest = append(slowest, ob)
+	}
+	sort.Slice(slowest, func(i, j int) bool { return slowest[i].Time > slowest[j].Time })
+	for i, ob := range res.obls {
+		if len(samples) < 12 && (i%max(1, len(res.obls)/12) == 0) {
+			samples = append(samples, sample{ob.Name, ob.Kind, ob.Status, ob.Solver, ob.Time, len(ob.query(false)), ob.Src})
+		}
+	}
+	var slow []sample
+	for i := 0; i < len(slowest) && i < 5; i++ {
+		ob := slowest[i]
+		slow = append(slow, sample{ob.Name, ob.Kind, ob.Status, ob.Solver, ob.Time, 0, ob.Src})
+	}
+	var knownIDs []string
+	for _, k := range kfs {
+		if !k.Fixed && k.Property == o.prop {
+			knownIDs = append(knownIDs, k.Line)
+		}
+	}
+	// known findings are undischarged obligations that are reported, not hidden:
+	// they are excluded from both counts and listed on their own
+	knownN := len(res.known)
+	cov := map[string]any{
+		"obligations":              proofObls - knownN,
+		"discharged":               proofDone,
+		"checker_cmd":              fmt.Sprintf("bin/govc check -p %s -tier %s (z3-new 5.1.0 / z3 4.8.12 / cvc5 1.0.3 portfolio on SMT-LIB queries generated from go/ssa of %s)", o.prop, o.tier, o.repo),
+		"trusted_base":             trustedBase(),
+		"functions_under_contract": funcs,
+		"obligations_by_kind":      byKind,
+		"by_solver":                bySolver,
+		"solver_time_s":            res.solverTime,
+		"slowest":                  slow,
+		"assumed_contracts_used":   sortedKeys(assumed),
+		"inlined":                  sortedKeys(inlined),
+		"uncontracted_callees":     sortedKeys(uncontr),
+		"known_findings":           knownIDs,
+		"known_finding_obligations": knownN,
+		"vacuity_covers":           covers,
+		"samples":                  samples,
+		"integers":                 "mathematical Int with exact two's-complement wrap at every conversion and arithmetic instruction (64-bit int/uint)",
+	}
+	var assumptions []string
+	for _, k := range sortedKeys(assumed) {
+		assumptions = append(assumptions, "assumed: "+k)
+	}
+	for _, k := range sortedKeys(uncontr) {
+		assumptions = append(assumptions, "uncontracted callee (havocked): "+k)
+	}
+	assumptions = append(assumptions, "go/ssa (x/tools v0.29.0) NaiveForm agrees with gc on the instruction subset", "SMT solvers are sound", "no unsafe, no concurrent mutation during a call")
+	ev := map[string]any{
+		"property_id": o.prop,
+		"tier":        o.tier,
+		"seed":        o.seed,
+		"level":       "proof",
+		"coverage":    cov,
+		"assumptions": assumptions,
+		"wall_s":      res.wall,
+		"violations":  violations,
+	}
+	b, _ := json.MarshalIndent(ev, "", " ")
+	os.WriteFile(filepath.Join(o.evdir, o.prop+".json"), b, 0o644)
+}
+
+func trustedBase() []string {
+	return []string{
+		"govc VC generator (/verif/govc)",
+		"golang.org/x/tools/go/ssa v0.29.0 (NaiveForm) as the semantics of the Go source",
+		"z3 5.1.0, z3 4.8.12, cvc5 1.0.3",
+		"assumed contracts of standard-library functions (stdlib.go), listed per run under assumed_contracts_used",
+	}
 }
 
 func oneLine(s string) string {
